@@ -178,6 +178,17 @@ def r2_dedup(ctx):
                 ok = ok and len(apps) == 1 and len(apps[0].expr.args) == 1 and F.is_name(apps[0].expr.args[0], p) \
                     and len(guard) == 1 and F.forced(fm, guard[0], False)
             ok = ok and n_app >= 1
+        if not ok and p and len(sites) == 1:
+            # the same guard kept in a companion set of the encodings already read (`if enc in self._seen: return` ...
+            # `self._seen.add(enc)` next to the append, the set re-bound wherever the list is): recognised, its book-keeping is not
+            # followed path by path - unknown, not wrong
+            mem = [a_ for sp in symex.func_sym_paths(f) for a_ in G.atoms_of(sp.condition())
+                   if '.encoding in self.' in a_ or (' in self.' in a_ and 'encoding' in a_)]
+            adds = [n_ for n_ in walk_local(f.node) if isinstance(n_, ast.Call) and isinstance(n_.func, ast.Attribute) and n_.func.attr == 'add'
+                    and src(n_.func.value).startswith('self.')]
+            if mem and adds:
+                raise AnalysisError(f'{f.loc}: {f.name} de-duplicates through the companion set `{src(adds[0].func.value)}`: whether it always '
+                                    f'mirrors the decoration list is not followed')
         if ok:
             helper = f
         ctx.check(ok, 'R2', f.loc, f.qualname, 'unguarded-decoration-append',
